@@ -30,6 +30,16 @@ CONFIGS = {
         "HBS_LMS_TREE_HEIGHTS": "25",
         "HBS_LMS_WINTERNITZ_PARAMETERS": "8",
     },
+    "l1w8h5": {
+        "HBS_LMS_MAX_ALLOWED_HSS_LEVELS": "1",
+        "HBS_LMS_TREE_HEIGHTS": "5",
+        "HBS_LMS_WINTERNITZ_PARAMETERS": "8",
+    },
+    "l2w8h5": {
+        "HBS_LMS_MAX_ALLOWED_HSS_LEVELS": "2",
+        "HBS_LMS_TREE_HEIGHTS": "5, 5",
+        "HBS_LMS_WINTERNITZ_PARAMETERS": "8, 8",
+    },
     "l3w8h5": {
         "HBS_LMS_MAX_ALLOWED_HSS_LEVELS": "3",
         "HBS_LMS_TREE_HEIGHTS": "5, 5, 5",
@@ -145,22 +155,61 @@ _sign_fns = ["hss::hss_sign / hss_sign_core", "ReferenceImplPrivateKey::from_bin
              "HssSignature::sign / to_binary_representation", "Signature::from_bytes_verbose"]
 _real_fns = _sign_fns + ["LmsSignature::sign / build_authentication_path", "lms::helper::get_tree_element", "lm_ots::keygen::*", "LmotsSignature::sign",
                          "LmsPrivateKey::use_lmots_private_key", "generate_signature_randomizer / SeedDerive"]
-H("C04", "quick", "c04", "c04_protocol_real_h2w8_l1", timeout=1800, model="HavocSum16 (digests havoc, Winternitz chain summarised by the HashChain override)",
-  encodes=_real_fns, unwind=36, forall="1 level H2(hook)/W8: every counter 0..3, every 16-byte seed, every message of length 0..4, both callback outcomes",
-  bounds="4-leaf tree, W8 (18 chains), n=16", stubs=DEFAULT_STUBS + ["HashChain::do_actual_hash_chain overridden by HavocSum16 (one havoc step)"])
-H("C04", "thorough", "c04", "c04_protocol_real_h2w8_l2", timeout=7200, model="HavocSum16", encodes=_real_fns + ["lms::generate_key_pair", "generate_child_seed_and_lms_tree_identifier"],
-  unwind=36, forall="2 levels H2/W8: every counter 0..15 (includes roll-over into fresh subtrees), seed, message, both outcomes", bounds="4-leaf trees, W8, n=16",
-  stubs=DEFAULT_STUBS + ["HashChain::do_actual_hash_chain overridden by HavocSum16"])
-H("C04", "quick", "c04", "c04_signing_key_entry_h2w8_l1", timeout=3600, model="HavocSum16", encodes=_real_fns + ["SigningKey::from_bytes / try_sign / try_sign_with_aux / get_lifetime / as_slice"],
-  unwind=36, forall="1 level H2/W8: every counter 0..3, seed, 3-byte message; sign, lifetime before/after, second sign after exhaustion", bounds="4-leaf tree, W8, n=16",
-  stubs=DEFAULT_STUBS + ["HashChain::do_actual_hash_chain overridden by HavocSum16"])
+_sum_stub = DEFAULT_STUBS + ["HashChain::do_actual_hash_chain overridden by HavocSum16 (one havoc step)"]
+for c in (0, 1, 2, 3):
+    H("C04", "quick" if c in (0, 3) else "thorough", "c04", f"c04_protocol_real_h2w8_l1_c{c}", config="l1w8h5", timeout=3600,
+      model="HavocSum16 (digests havoc, Winternitz chain summarised by the HashChain override)", encodes=_real_fns, unwind=36,
+      forall=f"1 level H2(hook)/W8, counter {c} (one instance per counter value 0..3): every 16-byte seed, every message of length 0..4, both callback outcomes",
+      bounds="4-leaf tree, W8 (18 chains), n=16", stubs=_sum_stub)
+for c in (0, 3, 4, 15):
+    H("C04", "thorough", "c04", f"c04_protocol_real_h2w8_l2_c{c}", config="l2w8h5", timeout=7200, model="HavocSum16",
+      encodes=_real_fns + ["lms::generate_key_pair", "generate_child_seed_and_lms_tree_identifier"], unwind=36,
+      forall=f"2 levels H2/W8, counter {c} (instances 0, 3, 4 = roll-over into a fresh subtree, 15 = last leaf): seed, message, both outcomes",
+      bounds="4-leaf trees, W8, n=16", stubs=_sum_stub)
+for c in (0, 2, 3):
+    H("C04", "quick" if c == 3 else "thorough", "c04", f"c04_signing_key_entry_h2w8_l1_c{c}", config="l1w8h5", timeout=3600, model="HavocSum16",
+      encodes=_real_fns + ["SigningKey::from_bytes / try_sign / try_sign_with_aux / get_lifetime / as_slice"], unwind=36,
+      forall=f"1 level H2/W8, counter {c}: seed, 3-byte message; sign, lifetime before/after, second sign after exhaustion", bounds="4-leaf tree, W8, n=16", stubs=_sum_stub)
 _contract_stubs = DEFAULT_STUBS + ["lms::generate_key_pair -> contracts::model_generate_key_pair (same private key, havoc root)",
                                    "LmsSignature::sign -> contracts::model_lms_sign (consumes exactly one leaf or refuses; no hash values)",
                                    "HashChain::do_actual_hash_chain overridden by HavocSum16"]
+_pre_fns = ["hss::hss_sign / hss_sign_core (up to the expansion)", "ReferenceImplPrivateKey::from_binary_representation", "CompressedParameterSet::from_slice / to",
+            "HssParameter::new", "hss::aux::hss_is_aux_data_used / hss_expand_aux_data / hss_get_aux_data_len / hss_optimal_aux_level / hss_store_aux_marker / compute_hmac",
+            "HssPrivateKey::get_expanded_aux_data", "SigningKey::from_bytes / get_lifetime"]
 for prop in ("C04", "C11"):
-    H(prop, "quick", "c04", "c04_protocol_contract_any_key", timeout=3600, model="HavocSum16", encodes=_sign_fns, unwind=36, replayable=False, stubs=_contract_stubs,
-      forall="every private-key byte string of every length 0..40 (all 256 values of every byte, all shapes of 1..8 levels, all counters), 2-byte message, both callback outcomes",
-      bounds="n=16 (valid key length 32); LMS layer by contract so heights up to 25 cost nothing")
-    H(prop, "quick", "c04", "c04_protocol_contract_any_key_aux", timeout=3600, model="HavocSum16", encodes=_sign_fns + ["hss::aux::hss_is_aux_data_used / hss_expand_aux_data / hss_get_aux_data_len / hss_optimal_aux_level / hss_store_aux_marker / compute_hmac"],
-      unwind=36, replayable=False, stubs=_contract_stubs,
-      forall="as above, plus every auxiliary buffer of every length 0..48 (every content, every level word)", bounds="n=16; aux cap 48 bytes")
+    for name, n, aux in (("c04_malformed_key_n16", 16, False), ("c04_malformed_key_aux_n16", 16, True), ("c04_malformed_key_n32", 32, False)):
+        H(prop, "quick", "c04", name, config="w8", timeout=3600, model=f"HavocSum{n}", encodes=_pre_fns, unwind=36, replayable="try",
+          stubs=DEFAULT_STUBS + ["HssPrivateKey::from -> contracts::model_from_fails (the expansion always fails: every path ends in an error)"],
+          forall="every private-key byte string of every length 0..40 (all 256 values of every byte), 2-byte message, both callback outcomes"
+                 + (", every auxiliary buffer of every length 0..48 and content" if aux else ""),
+          bounds=f"n={n} (valid key length {16+n}); build configuration w8 (8 levels, heights <= 25, W8 only)")
+H("C04", "quick", "c04", "c04_sign_fails_no_callback", config="l1w8h5", timeout=1800, model="HavocSum16", encodes=_sign_fns, unwind=36, replayable=False,
+  stubs=DEFAULT_STUBS + ["HssSignature::sign -> contracts::model_hss_sign_fails"], forall="1 level H2/W8, counter 1, every seed, both callback outcomes; signing proper fails",
+  bounds="n=16")
+for prop in ("C03", "C05"):
+    for name, cfg, tier in (("c03_step_contract_h5_h10_h25", "w8", "quick"), ("c03_step_contract_h25_h5", "w8", "quick"), ("c03_step_contract_h20", "w8", "quick"),
+                            ("c03_step_contract_h15_h15_h15_h15", "w8", "thorough"), ("c03_step_contract_8x_h5", "w8", "thorough")):
+        H(prop, tier, "c04", name, config=cfg, timeout=7200, model="HavocSum16", encodes=_sign_fns + ["SigningKey::get_lifetime", "HssPrivateKey::get_lifetime"],
+          unwind=36, replayable=False, stubs=_contract_stubs,
+          forall="concrete shape (type bytes assigned), every counter of the complete lifetime (up to 2^60), every seed, both callback outcomes",
+          bounds="n=16, W8; LMS layer by contract (tall trees are not built)")
+
+# ---------------------------------------------------------------------------------------------
+# C15 fast-verify cost evaluation kernel (the only fast-verify mechanism compiled without the feature)
+for n, w in PAIRS:
+    H("C15", "quick", "c15", f"c15_eval_n{n}_w{w}", timeout=900, model=f"Havoc{n} (no digest computed)",
+      encodes=["LmotsParameter::fast_verify_eval_init", "LmotsParameter::fast_verify_eval", "util::coef::coef_helper", "LmotsParameter::append_checksum_to"],
+      forall=f"every {n}-byte digest Q", bounds="exact", unwind=8 * n // w + 12)
+
+# ---------------------------------------------------------------------------------------------
+# C07 tables and layout
+H("C07", "quick", "c07", "c07_length_tables", timeout=600, model="none", encodes=["constants::get_num_winternitz_chains / lmots_signature_length / lms_signature_length / lms_public_key_length",
+  "LmsAlgorithm::get_from_type", "LmsParameter::number_of_lm_ots_keys"], forall="all 12 (n, w) x 6 heights (constants), every u32 LMS type code", bounds="exact")
+for n in (16, 24, 32):
+    H("C07", "quick", "c07", f"c07_lms_public_key_layout_n{n}", timeout=600, model=f"Havoc{n}", encodes=["LmsPublicKey::to_binary_representation"],
+      forall="every tree identifier and root value", bounds="one (w, h) pair per n (type codes are constants of the parameter set)")
+for n in (16, 32):
+    H("C07", "quick", "c07", f"c07_lms_signature_layout_n{n}", config="w8", timeout=1800, model=f"Havoc{n}",
+      encodes=["LmsSignature::to_binary_representation", "LmotsSignature::to_binary_representation"],
+      forall="every leaf index, randomizer, chain value and path node content; 3 chain values, 2 path nodes",
+      bounds="element counts 3 / 2 (the serialiser is a loop over elements; more elements repeat the same body)")
